@@ -73,11 +73,14 @@ Absolute(sc, B, u, r) ==
 
 (* ---------- relative checks: another option set / configuration / history against the default ---------- *)
 CmpFields == <<"ok", "pn", "tk", "tkn", "tkh", "et", "ex", "as", "pr", "ms", "lg">>
+\* the shim abandons a parse of a long input after a deadline ("hang: ..."); when the reference run of a comparison is
+\* that slow, the input is not judged at all
+Slow(r) == "hang" \in DOMAIN r /\ r.hang /\ "wl" \in DOMAIN r /\ r.wl >= 5000
 \* the reference observation's token count goes with the record (known-finding signatures use it)
 WithRef(m, d) == m @@ [ref |-> [tkn |-> IF Has(d, "tkn") THEN d.tkn ELSE 0, ok |-> d.ok]]
 RECURSIVE CmpFrom(_, _, _, _, _, _)
 CmpFrom(prop, u, r, d, k, fields) ==
-  IF k > Len(fields) THEN <<>>
+  IF k > Len(fields) \/ Slow(d) THEN <<>>
   ELSE LET f == fields[k] IN
        If(Field(r, f) # Field(d, f), WithRef(Mis(prop, "differs:" \o f, u, r, Field(d, f), Field(r, f)), d)) \o CmpFrom(prop, u, r, d, k + 1, fields)
 
@@ -89,7 +92,7 @@ Owner(f, opt) ==
          [] f \in {"tkn", "tkh"} -> "C03" [] f = "ex" -> "C04" [] f \in {"as", "pr"} -> "C05" [] OTHER -> "C07"
 RECURSIVE CmpOwned(_, _, _, _, _)
 CmpOwned(u, r, d, k, fields) ==
-  IF k > Len(fields) THEN <<>>
+  IF k > Len(fields) \/ Slow(d) THEN <<>>
   ELSE LET f == fields[k] IN
        (IF Field(r, f) # Field(d, f)
         THEN <<WithRef(Mis("C12", "differs:" \o f, u, r, Field(d, f), Field(r, f)), d),
@@ -168,7 +171,8 @@ JudgeRuns(sc, B, units, du, u, k) ==
   ELSE LET r == u.runs[k] pl == sc.plan[r.c] IN
        (IF u.opt = "" /\ r.h = 0 /\ IsDefaultPlan(pl)
         THEN (IF Has(sc.inputs[r.i], "rep")    \* a long input: no panic, verdict by relation to the other configurations only
-              THEN If(r.pn # "", Mis("C13", "panic", u, r, "", r.pn))
+                                               \* (a slow reference run is not a hang: some grammars need quadratic time)
+              THEN If(r.pn # "" /\ ~Slow(r), Mis("C13", "panic", u, r, "", r.pn))
               ELSE Absolute(sc, B, u, r))
         ELSE Relative(sc, units, du, u, k))
        \o JudgeRuns(sc, B, units, du, u, k + 1)
